@@ -15,9 +15,9 @@ namespace Fbr.Ovl
 def staleOf (e : Real) : Real := { e with opq := false }
 
 /-- the node's real inodes are the ones the disk dictates, except that the single real inode of
-    a directory made by do_mkdir may carry a stale `opaque = false` -/
+    a directory made by do_mkdir (always in the upper layer) may carry a stale `opaque = false` -/
 def RealsOK (d : Disk) (p : Path) (rs : List Real) : Prop :=
-  rs = expReals d p ∨ ∃ e, expReals d p = [e] ∧ rs = [staleOf e]
+  rs = expReals d p ∨ ∃ e, expReals d p = [e] ∧ e.inUpper = true ∧ rs = [staleOf e]
 
 def headWhiteout : List Real → Bool
   | r :: _ => r.whiteout
@@ -25,10 +25,14 @@ def headWhiteout : List Real → Bool
 
 structure Consistent (s : St) : Prop where
   roots : s.disk.RootsOK
+  trees : s.disk.TreesOK
   root : ∃ m, s.mem [] = some m
   reals : ∀ p m, s.mem p = some m → RealsOK s.disk p m.reals
   wh : ∀ p m, s.mem p = some m → m.whiteout = headWhiteout m.reals
-  kidsLoaded : ∀ p m, s.mem p = some m → m.loaded = true → ∀ n, n ∈ m.kids ↔ expReals s.disk (n :: p) ≠ []
+  /-- a loaded directory lists only names that have real inodes, and every visible name (a
+      whiteout node may be missing: `do_rm` drops it when a lower whiteout already hides the name) -/
+  kidsLoaded : ∀ p m, s.mem p = some m → m.loaded = true → ∀ n,
+    (n ∈ m.kids → expReals s.disk (n :: p) ≠ []) ∧ (specStat s.disk (n :: p) ≠ none → n ∈ m.kids)
   kidsMem : ∀ p m n, s.mem p = some m → n ∈ m.kids → ∃ c, s.mem (n :: p) = some c
   unloaded : ∀ p m, s.mem p = some m → m.loaded = false → m.kids = []
   reach : ∀ n p c, s.mem (n :: p) = some c → ∃ pm, s.mem p = some pm ∧ n ∈ pm.kids
@@ -55,7 +59,7 @@ theorem takeDirs_single_stale (d : Disk) (e : Real) (n : Name) :
 theorem scan_cands (d : Disk) (p : Path) (rs : List Real) (n : Name) (h : RealsOK d p rs) :
     (takeDirs d rs).filterMap (lookupChild d · n) =
       (takeDirs d (expReals d p)).filterMap (lookupChild d · n) := by
-  rcases h with h | ⟨e, he, h⟩
+  rcases h with h | ⟨e, he, _, h⟩
   · rw [h]
   · rw [h, he, takeDirs_single_stale]
 
@@ -229,7 +233,7 @@ theorem loaded_consistent (s s' : St) (hc : Consistent s) (p : Path) (m : MNode)
       obtain ⟨pm, hpm, hn⟩ := hc.reach n p c hx
       rw [hm] at hpm; cases hpm
       rw [hk0] at hn; cases hn
-  refine ⟨by rw [hd]; exact hc.roots, ?_, ?_, ?_, ?_, ?_, ?_, ?_⟩ <;> rw [hmem] <;> try rw [hd]
+  refine ⟨by rw [hd]; exact hc.roots, by rw [hd]; exact hc.trees, ?_, ?_, ?_, ?_, ?_, ?_, ?_⟩ <;> rw [hmem] <;> try rw [hd]
   · -- root
     by_cases hp0 : p = []
     · subst hp0; exact ⟨_, hp⟩
@@ -263,7 +267,9 @@ theorem loaded_consistent (s s' : St) (hc : Consistent s) (p : Path) (m : MNode)
     intro q m' hq hlq n
     by_cases h1 : q = p
     · subst h1; rw [hp] at hq; cases hq
-      exact scanKids_names s.disk q m n hr
+      refine ⟨(scanKids_names s.disk q m n hr).1, fun hsp => (scanKids_names s.disk q m n hr).2 ?_⟩
+      intro he
+      exact hsp (by simp [specStat, he])
     · by_cases h2 : ∃ n, q = n :: p
       · obtain ⟨n', rfl⟩ := h2
         rw [hchild] at hq
